@@ -10,9 +10,9 @@ dst="$mod/$pkg/zz_gvc_replay_test.go"
 printf '{"Replace": {"%s": "%s"}}' "$dst" "$file" > "$tmp/ov.json"
 cd "$mod/$pkg" || exit 2
 if [ "$mod" = "/repo/cmd/atlas" ]; then
-  out=$(GOFLAGS=-mod=mod GOPROXY=off GIT_CONFIG_GLOBAL=/dev/null go test -overlay "$tmp/ov.json" -vet=off -count=1 -timeout 120s -run "^$name\$" . 2>&1)
+  out=$(GOFLAGS=-mod=mod GOPROXY=off GIT_CONFIG_GLOBAL=/dev/null go test -overlay "$tmp/ov.json" -vet=off -count=1 -timeout ${GVC_REPLAY_TIMEOUT:-300s} -run "^$name\$" . 2>&1)
 else
-  out=$(GOFLAGS=-mod=mod GOPROXY=off GOSUMDB=off GOTOOLCHAIN=local go test -overlay "$tmp/ov.json" -vet=off -count=1 -timeout 120s -run "^$name\$" . 2>&1)
+  out=$(GOFLAGS=-mod=mod GOPROXY=off GOSUMDB=off GOTOOLCHAIN=local go test -overlay "$tmp/ov.json" -vet=off -count=1 -timeout ${GVC_REPLAY_TIMEOUT:-300s} -run "^$name\$" . 2>&1)
 fi
 rc=$?
 echo "$out" | tail -15
